@@ -135,12 +135,28 @@ def r16a(P, R):
                     chars.add(x["v"])
                 elif x.get("lk") == "byte" and isinstance(x.get("v"), int):
                     chars.add(chr(x["v"]))
+        # `${` may also be neutralised as a whole (`"${"` replaced by `"$\\{"` or `"\\${"`): the escape and the `$` test are then in
+        # string literals, not in characters
+        def written(ch):
+            return ("\\" + ch) in strs or (ch == "{" and any("\\{" in l or "\\${" in l for l in strs))
+
+        def looked_for(ch):
+            return ch in chars or any(ch in l and "\\" not in l for l in strs)
+        # a pass that doubles backslashes must run before the passes that introduce them
+        late = [x for f in mod for x in f.walk() if x.get("k") == "MethodCall" and x.get("method") in ("replace", "replacen") and x["args"]
+                and lit_value(x["args"][0]) == "\\"
+                and any(y is not x and y.get("k") == "MethodCall" and y.get("method") in ("replace", "replacen") and len(y["args"]) > 1
+                        and "\\" in str(lit_value(y["args"][1]) or "") for y in subnodes(x["recv"]))]
         for ch, why in (("\\", "backslash starts an escape in template literals"),
                         ("`", "backtick terminates the template literal"),
                         ("{", "`${` starts a substitution")):
-            R.check("R16-a", "js-template:%s" % CHNAME[ch], ("\\" + ch) in strs and ch in chars, "%r is looked for and its escape is written (%s)" % (ch, why),
+            if ch == "\\" and late:
+                R.violated("R16-a", "js-template:backslash", "backslashes are doubled after another escape has already been inserted: the backslash of that "
+                           "escape is doubled too and the escaped character becomes live again", loc=jw.loc())
+                continue
+            R.check("R16-a", "js-template:%s" % CHNAME[ch], written(ch) and looked_for(ch), "%r is looked for and its escape is written (%s)" % (ch, why),
                     "JsStringWriter::write never writes the escape of %r or never looks for it (%s)" % (ch, why), loc=jw.loc())
-        R.check("R16-a", "js-template:dollar-flag", "$" in chars, "`{` is escaped with regard to a preceding `$`",
+        R.check("R16-a", "js-template:dollar-flag", looked_for("$"), "`{` is escaped with regard to a preceding `$`",
                 "nothing in JsStringWriter::write looks at `$`: `{` cannot be escaped only after `$`", loc=jw.loc())
     for m in ms:
         explicit = {}
